@@ -33,8 +33,8 @@ namespace Txdbus.Msg
 for body values of type `β`.  `marshal` returns the bytes and the descriptor list afterwards (it appends
 to the list it is given; `none` = `oobFDs=None`). -/
 structure BodyCodec (β : Type) where
-  marshal : List Char → Option β → Option (List Int) → Except PyErr (Bytes × Option (List Int))
-  unmarshal : List Char → Bytes → Bool → Option (List Int) → Except PyErr β
+  marshal : List Char → Option β → Option (List PyVal) → Except PyErr (Bytes × Option (List PyVal))
+  unmarshal : List Char → Bytes → Bool → Option (List PyVal) → Except PyErr β
 
 /-- A message object (constructed or parsed). -/
 structure Msg (β : Type) where
@@ -129,7 +129,7 @@ structure Pre (β : Type) where
 /-- First part of `_marshal`: the body is marshalled before the headers "to know if the 'unix_fd' header is
 needed".  Returns `binBody`, the attributes (with `unix_fds` set when descriptors were collected) and the
 header table to walk (the class's `_headerAttrs`, plus `('unix_fds', 9, False)` in that case). -/
-def marshalBody {β : Type} (T : Tables) (C : BodyCodec β) (p : Pre β) (oobFDs : Option (List Int)) :
+def marshalBody {β : Type} (T : Tables) (C : BodyCodec β) (p : Pre β) (oobFDs : Option (List PyVal)) :
     Except PyErr (Bytes × (Attr → PyVal) × List (Attr × Nat × Bool)) :=
   let sigv := p.attrs .signature
   if truthy sigv then
@@ -176,7 +176,7 @@ def finishMarshal {β : Type} (T : Tables) (maxLen : Nat) (st : St) (p : Pre β)
 /-- `DBusMessage._marshal(self, newSerial=True, oobFDs=oobFDs)` (`rawBody=None`); `maxLen` = `self._maxMsgLen`.
 Returns the new counter state together with the message or the exception. -/
 def marshalMsg {β : Type} (T : Tables) (C : BodyCodec β) (maxLen : Nat) (st : St) (p : Pre β)
-    (oobFDs : Option (List Int)) : St × Except PyErr (Msg β) :=
+    (oobFDs : Option (List PyVal)) : St × Except PyErr (Msg β) :=
   match marshalBody T C p oobFDs with
   | .error x => (st, .error x)
   | .ok (binBody, attrs, table) => finishMarshal T maxLen st p binBody attrs table
@@ -214,7 +214,7 @@ structure CallArgs (β : Type) where
   body : Option β := none
   expectReply : Bool := true
   autoStart : Bool := true
-  oobFDs : Option (List Int) := none
+  oobFDs : Option (List PyVal) := none
 
 /-- `MethodCallMessage.__init__` -/
 def mkMethodCall {β : Type} (T : Tables) (C : BodyCodec β) (na : Char → Bool) (maxLen : Nat) (st : St)
@@ -341,7 +341,7 @@ def applyFields (T : Tables) : (Attr → PyVal) → List (Nat × PyVal) → (Att
     | none => applyFields T f rest
 
 /-- `parseMessage(rawMessage, oobFDs)` -/
-def parseMessage {β : Type} (T : Tables) (C : BodyCodec β) (rawMessage : Bytes) (oobFDs : Option (List Int)) :
+def parseMessage {β : Type} (T : Tables) (C : BodyCodec β) (rawMessage : Bytes) (oobFDs : Option (List PyVal)) :
     Except PyErr (Msg β) :=
   match rawMessage with
   | [] => .error .index                                 -- rawMessage[0]
